@@ -4,7 +4,7 @@ def chk(pid, engine, text, note, technique, ref):
     return {"property_id":pid,"quick_cmd":f"./check {pid} quick","thorough_cmd":f"./check {pid} thorough",
             "evidence_file":f"evidence/{pid}.json","replay_cmd_template":"./check --replay {path}","engine":engine,
             "level_claimed":{"category":"exploration","text":text,"design_ref":ref},"level_note":note,"technique":technique}
-note_cache="Preemption only at the verif yield sites (before every outermost lock, around every channel hand-off); go1.26.8 testing/synctest fake clock; sync.Pool of ringBuffer replaced by a simulator-owned stripe set; seeded sampling of schedules, clock advances and faults - evidence, not proof."
+note_cache="Preemption at the verif yield sites (before every outermost lock, after the last unlock, around every channel hand-off) and at the points cmd/autoyield inserts mechanically into a scratch copy of the tree at build time (before every mutex and atomic operation of the root package, never while a lock is held; if that copy does not build the plain tree is used and the evidence says so); go1.26.8 testing/synctest fake clock; sync.Pool of ringBuffer replaced by a simulator-owned stripe set; seeded sampling of schedules, clock advances and faults - evidence, not proof."
 note_store="Single-task histories: the simulator owns page size, backing store (calloc / mmap file in a scratch directory), growth, migration and clean close+reopen instants; real page cache, no torn writes (none are claimed); seeded sampling - evidence, not proof."
 note_alloc="Preemption only at the verif yield sites around the packed atomic add and the slow-path mutex of z.Allocator; seeded sampling of interleavings - evidence, not proof. Non-termination is detected by a step cap and a wall-clock watchdog."
 tech="deterministic simulation: seeded scheduler over real goroutines (yield-site hooks + testing/synctest), simulated clock, fault injection"
@@ -15,7 +15,7 @@ checks=[
  chk("C03","cachesim","After every admission decision of the applier (white box, under the seeded schedule) used <= MaxCost and used == sum of accounted costs; at scheduler-made quiescent points RemainingCost == MaxCost - sum, >= 0 in cost-monotone runs.",note_cache,tech+"; invariant after every applier admission + quiescent-point white-box checks","DESIGN.md P-C03"),
  chk("C04","cachesim","Per-value ledger over all callbacks in seeded concurrent histories with drops, rejections, evictions, expiry, Clear and Close at arbitrary points: exactly one OnExit per accepted value, deadlines at Clear/Close, none for refused values.",note_cache,tech+"; per-value ledger with Clear/Close deadlines","DESIGN.md P-C04"),
  chk("C05","cachesim","Seeded search over applier lag and buffered inserts before a Del; history rule (Del, Wait, Get) plus release of deleted values.",note_cache,tech+"; history rule over Del/Wait/Get","DESIGN.md P-C05"),
- chk("C06","cachesim","Single-client histories with everything fitting, applier lag chosen by the scheduler; every read compared with a partial reference model (Absent/Pending/Resident/Unknown), plus the FIFO rule for Wait.",note_cache,tech+"; refinement against a partial reference map","DESIGN.md P-C06"),
+ chk("C06","cachesim","Single-client histories with everything fitting (MaxCost 2^40, or exactly the sum of the largest cost each key ever carries), applier lag chosen by the scheduler; every read compared with a partial reference model (Absent/Pending/Resident/Unknown), plus the FIFO rule for Wait.",note_cache,tech+"; refinement against a partial reference map","DESIGN.md P-C06"),
  chk("C07","cachesim","Simulated clock moved by the scheduler, also inside operations and to expiration-1ns / exactly / +1ns; interval-bounded expiry oracle (late rule on all histories, early rule and GetTTL bounds against the reference model).",note_cache,tech+"; interval-bounded expiry oracle on the simulated clock","DESIGN.md P-C07"),
  chk("C08","cachesim","The same simulator built with -race: hand-offs of the scheduler are hidden from the detector (RaceDisable/norace), so tsan sees only ristretto's own synchronisation and reports unordered conflicting accesses even on a serial, replayable schedule; panics, simulator-level deadlocks, bounded progress under fair scheduling and a wall-clock spin watchdog decide the other clauses.",note_cache+" The race clause inherits tsan's bounded access history.",tech+"; race detector inside deterministic runs + deadlock / bounded-progress rules","DESIGN.md P-C08"),
  chk("C09","cachesim","Every admission decision observed under the policy lock: resident set, estimates, sampled candidates (through the map-order seam) and victims; rules R1-R3 of the discipline checked per decision, map enumeration order is a simulator decision.",note_cache,tech+"; per-decision check from seam-observed samples and white-box estimates","DESIGN.md P-C09"),
@@ -24,7 +24,7 @@ checks=[
  chk("C12","zsim","2-6 real goroutines allocating under the seeded scheduler with yield sites around the atomic add and the slow path, sizes straddling chunk boundaries, Reset/TrimTo/replay phases; disjointness, canary contents, alignment, zeroing, replay without new memory, termination.",note_alloc,tech+"; interval-disjointness + canary contents under scheduled interleavings","DESIGN.md P-C12"),
  chk("C13","cachesim","At scheduler-made quiescent points of seeded concurrent histories the white-box key set of the map equals that of the cost table; IterValues in an exclusive section yields exactly the unexpired values and honours stop; emptying epilogues restore full capacity.",note_cache,tech+"; white-box agreement at quiescent points","DESIGN.md P-C13"),
  chk("C14","cachesim","Sweeps racing re-writes under the seeded scheduler and clock: every sweep eviction must be of a TTL value whose own expiration has passed; an epilogue advances the clock far beyond all expirations while writing and checks everything expired was reclaimed.",note_cache,tech+"; ledger of sweep removals vs the value's own expiration + eventual-reclaim epilogue","DESIGN.md P-C14"),
- chk("C15","cachesim","Close issued while clients are idle or blocked in Wait, at arbitrary points of histories with buffered items; post-Close probes, goroutine accounting, post-Clear freshness checks.",note_cache,tech+"; post-Close/Clear probes and task accounting","DESIGN.md P-C15"),
+ chk("C15","cachesim","Close issued while clients are idle or blocked in Wait (on their marker or on the full write buffer), at arbitrary points of histories with buffered items; post-Close probes, goroutine accounting; after Clear: white-box emptiness, capacity, metrics and sketch freshness, release of every Wait that was blocked when the Clear was invoked, and a follow-up program whose reads are decided by the reference model of a new cache.",note_cache,tech+"; post-Close/Clear probes and task accounting","DESIGN.md P-C15"),
  chk("C16","zsim","The C10 generator on a persistent tree with clean close+reopen injected at drawn points (biased to follow DeleteBelow); contents, IterateKV and Stats compared across reopen, history continues on the reopened tree.",note_store,tech_store+"; restart injection","DESIGN.md P-C16"),
  chk("C17","cachesim","Harness-counted calls vs Metrics counters at quiescent points of seeded concurrent histories (clean-Clear epochs), with drops, policy stalls and stripe loss.",note_cache,tech+"; conservation equations at quiescent points","DESIGN.md P-C17"),
 ]
@@ -46,7 +46,7 @@ m={"version":1,
    "baseline_off_cmd":"cd /repo && go test -mod=mod -vet=off -count=1 -timeout 25m ./...",
    "source_commits":hooks[::-1],"add_only":False},
  "engines":[
-  {"name":"cachesim","path":"sim/cachesim","serves_properties":[c['property_id'] for c in checks if c['engine']=='cachesim'],"kind_free_text":"deterministic simulation of the real cache: seeded scheduler over real goroutines parked at yield-site hooks inside a testing/synctest bubble, simulated clock, gated selects, seamed map iteration, fault injection (applier/policy stalls, tiny buffers, clock jumps, stripe loss, Clear/Close)"},
+  {"name":"cachesim","path":"sim/cachesim","serves_properties":[c['property_id'] for c in checks if c['engine']=='cachesim'],"kind_free_text":"deterministic simulation of the real cache: seeded scheduler over real goroutines parked at yield-site hooks (hand-placed behind the verif tag, plus mechanically inserted ones in a scratch copy) inside a testing/synctest bubble, simulated clock, gated selects, seamed map iteration, fault injection (applier/policy stalls, tiny buffers, clock jumps, stripe loss, Clear/Close)"},
   {"name":"zsim","path":"sim/zsim","serves_properties":[c['property_id'] for c in checks if c['engine']=='zsim'],"kind_free_text":"z engines: allocator under the same seeded scheduler (real goroutines, yield sites in Allocate); storage engine = single-task seeded histories over z.Tree / z.Buffer with simulator-owned page size, backing store, growth and clean close+reopen, compared step by step with a reference model"}],
  "checks":checks,
  "notes":"hooks.add_only=false: five select case headers (verifGate/verifGateTick) and four map range headers (verifRange) were rewritten, everything else is added lines; see DESIGN.md S-HOOKS. Exit codes: 0 held, 1 violation (VIOLATION line with replay file), 2 machinery trouble. Genuine defects found and repaired are listed in known_findings.json as fixed entries.",
